@@ -292,8 +292,14 @@ def st_qb(st, bits=(2, 6), ints=(0, 2), sym=(0, 1), alpha=(1.0,)):
       st.sampled_from(alpha))
 
 
-def st_kernel_q(st):
+def st_kernel_q(st, wide=False):
+  extra = []
+  if wide:       # thorough tier: accumulators beyond 24 bits (float32 inexact)
+    extra = [st_qb(st, bits=(8, 12), ints=(0, 3)),
+             st.builds(lambda b: {"t": "po2", "bits": b, "mv": None},
+                       st.integers(5, 6))]
   return st.one_of(
+      *extra,
       st_qb(st),
       st_qb(st, bits=(2, 8)),
       st.builds(lambda b, i, a: {"t": "qb", "bits": b, "int": min(i, b - 1),
@@ -329,7 +335,7 @@ def st_act_q(st):
 POW2_FANIN = [1, 2, 4, 8, 16]
 
 
-def st_geometry(st, draw, kind, cur, small):
+def st_geometry(st, draw, kind, cur, small=True):
   """Draws kernel/stride/dilation/padding for a conv-like layer given the
   current spatial shape; by construction the layer is buildable."""
   nd = 1 if kind == "conv1d" else 2
@@ -337,7 +343,7 @@ def st_geometry(st, draw, kind, cur, small):
   pads = ["valid", "same"] + (["causal"] if kind == "conv1d" else [])
   pad = draw(st.sampled_from(pads))
   for a in range(nd):
-    kmax = min(3, cur[a])
+    kmax = min(3 if small else 5, cur[a])
     k = draw(st.integers(1, kmax))
     s = draw(st.integers(1, 2))
     d = 1
